@@ -39,6 +39,8 @@ def build(tier, seed):
         from bounded import c01
         return c01.search_rich() or c01.search()
     tasks.append(Task(f"{PROP}.S.casefold", PROP, "keyword tests on captured text", lambda: casefold.obligations(PROP, "ford.sourceform", _replay)))
+    tasks.append(Task(f"{PROP}.S.casefold.names", PROP, "comparisons of entity names", lambda: casefold.name_obligations(PROP, replay=_replay)))
+    tasks.append(Task(f"{PROP}.S.casefold.attribs", PROP, "attribute membership tests", lambda: casefold.attribute_obligations(PROP, replay=_replay)))
     tasks.append(Task(f"{PROP}.S.operands", PROP, "operand list splitting", lambda: operands.obligations(PROP, _replay)))
     tasks.append(bounded_task())
     meta = {
